@@ -711,43 +711,39 @@ class PendingAssign(PendingNode[Assign | AnnAssign]):
 
 
 class PendingAugAssign(PendingNode[AugAssign]):
+    # the functions of the `operator` module that perform `a op= b` exactly as the
+    # statement does: in-place method looked up on the type, NotImplemented,
+    # fallback to the binary operator and its reflected form
     _op_dict: dict[type[operator], str] = {
-        Add: "__iadd__",
-        BitAnd: "__iand__",
-        FloorDiv: "__ifloordiv__",
-        LShift: "__ilshift__",
-        Mod: "__imod__",
-        Mult: "__imul__",
-        MatMult: "__imatmul__",
-        BitOr: "__ior__",
-        Pow: "__ipow__",
-        RShift: "__irshift__",
-        Sub: "__isub__",
-        Div: "__itruediv__",
-        BitXor: "__ixor__",
+        Add: "iadd",
+        BitAnd: "iand",
+        FloorDiv: "ifloordiv",
+        LShift: "ilshift",
+        Mod: "imod",
+        Mult: "imul",
+        MatMult: "imatmul",
+        BitOr: "ior",
+        Pow: "ipow",
+        RShift: "irshift",
+        Sub: "isub",
+        Div: "itruediv",
+        BitXor: "ixor",
     }
 
-    def _aug_assign_expr(
-        self, target: expr, op: operator, value: expr, fallback: expr | None = None
-    ) -> expr:
-        op_name = self._op_dict[type(op)]
-        if fallback is None:
-            assert isinstance(target, Name)
-            fallback = NamedExpr(
-                target=target, value=BinOp(left=target, op=op, right=value)
-            )
-        return IfExp(
-            test=Call(
-                func=Name(id="hasattr", ctx=Load()),
-                args=[target, Constant(value=op_name)],
-                keywords=[],
+    def _aug_assign_expr(self, target: expr, op: operator, value: expr) -> expr:
+        # __import__('operator').i<op>(target, value)
+        return Call(
+            func=Attribute(
+                value=Call(
+                    func=Name(id="__import__", ctx=Load()),
+                    args=[Constant(value="operator")],
+                    keywords=[],
+                ),
+                attr=self._op_dict[type(op)],
+                ctx=Load(),
             ),
-            body=Call(
-                func=Attribute(value=target, attr=op_name, ctx=Load()),
-                args=[value],
-                keywords=[],
-            ),
-            orelse=fallback,
+            args=[target, value],
+            keywords=[],
         )
 
     def get_result(self) -> list[expr]:
@@ -756,19 +752,11 @@ class PendingAugAssign(PendingNode[AugAssign]):
         assign_value = expr_transf(self.nsp, self.node.value)
         if isinstance(self.node.target, Name):
             target = self.nsp.get_load_name(self.node.target.id)
-            # the result of the in-place method has to be stored back as well:
-            # it doesn't have to be the same object
+            # the result has to be stored back: it doesn't have to be the same object
             return [
                 self.nsp.get_assign(
                     self.node.target.id,
-                    self._aug_assign_expr(
-                        target,
-                        self.node.op,
-                        assign_value,
-                        fallback=BinOp(
-                            left=target, op=self.node.op, right=assign_value
-                        ),
-                    ),
+                    self._aug_assign_expr(target, self.node.op, assign_value),
                 )
             ]
         elif isinstance(self.node.target, Subscript):
